@@ -16,12 +16,18 @@ pub mod c04;
 pub mod c05;
 pub mod c06;
 pub mod c07;
+pub mod c17;
+pub mod c19;
+pub mod c20;
+pub mod c21;
+pub mod c22;
 pub mod c23;
 pub mod c24;
 pub mod c25;
 pub mod c26;
 pub mod c35;
 pub mod c36;
+pub mod objgen;
 
 pub fn all() -> Vec<PropDef> {
     vec![
@@ -32,6 +38,12 @@ pub fn all() -> Vec<PropDef> {
         PropDef { id: "C05", run: c05::run, replay: c05::replay },
         PropDef { id: "C06", run: c06::run, replay: c06::replay },
         PropDef { id: "C07", run: c07::run, replay: c07::replay },
+        PropDef { id: "C17", run: c17::run17, replay: c17::replay17 },
+        PropDef { id: "C18", run: c17::run18, replay: c17::replay18 },
+        PropDef { id: "C19", run: c19::run, replay: c19::replay },
+        PropDef { id: "C20", run: c20::run, replay: c20::replay },
+        PropDef { id: "C21", run: c21::run, replay: c21::replay },
+        PropDef { id: "C22", run: c22::run, replay: c22::replay },
         PropDef { id: "C23", run: c23::run, replay: c23::replay },
         PropDef { id: "C24", run: c24::run, replay: c24::replay },
         PropDef { id: "C25", run: c25::run, replay: c25::replay },
